@@ -109,6 +109,14 @@ Theorem C09_refuted_delete_row_splits_vmerge :
 Proof. exact refuted_delete_row_splits_vmerge. Qed.
 Print Assumptions C09_refuted_delete_row_splits_vmerge.
 
+(* unmerging the start of a vertical chain in a row whose physical cells a horizontal merge has shifted: the table was a
+   well-formed grid before the call and is not after it (recorded finding q_merged_table_unmerge_misaligned) *)
+Theorem C09_refuted_unmerge_after_hmerge :
+  match after [MergeV 0 2 2; MergeH 0 0 1] t33, after [MergeV 0 2 2; MergeH 0 0 1; Unmerge 0 1] t33 with
+  | Some a, Some b => grid_inv a = true /\ grid_inv b = false | _, _ => False end.
+Proof. exact refuted_unmerge_after_hmerge. Qed.
+Print Assumptions C09_refuted_unmerge_after_hmerge.
+
 Theorem C09_refuted_merge_again :
   match after [MergeH 0 0 1; MergeV 0 1 1] t33 with Some t => grid_inv t = false | None => False end.
 Proof. exact refuted_merge_again. Qed.
